@@ -57,6 +57,9 @@ def call_create(timebox=5.0):
         signal.signal(signal.SIGALRM, old)
 
 
+LOOKALIKES = ("tmp01", "tmp002", "tmp 3", "tmp+4", "Tmp1", "tmp1.bak", "tmp\uff11", "tmp\u00b2", "tmp-1", "tmp0", "xtmp1", "tmp1_")
+
+
 def sequential(ctx):
     cwd = os.getcwd()
     try:
@@ -71,6 +74,10 @@ def sequential(ctx):
                     else:
                         p.write_text("precious")
                 (d / "tmp").write_text("not a candidate")
+                # names that only look like numbered directories take no number away
+                for j, look in enumerate(LOOKALIKES):
+                    if (len(subset) + j) % 3 == 0:
+                        (d / look).mkdir() if j % 2 else (d / look).write_text("not a candidate either")
                 before = sorted((str(p.relative_to(d)), p.read_bytes() if p.is_file() else None) for p in d.rglob("*"))
                 os.chdir(d)
                 res = call_create()
@@ -79,6 +86,9 @@ def sequential(ctx):
                 want = next(i for i in itertools.count(1) if i not in subset)
                 real = f"ok {res[1][3:]}" if res[0] == "ok" and res[1].startswith("tmp") else f"{res[0]}"
                 ctx.expect("tempdir", f"tempdir {','.join(map(str, subset)) or '.'} N", real, case)
+                # and one level down: the whole listing as names (look-alikes included) through the name-level model
+                listing = sorted(n for n in os.listdir(d) if n != res[1]) if res[0] == "ok" else sorted(os.listdir(d))
+                ctx.expect("tempdir-names", "tempdir-names " + common.enc_list([n.encode() for n in listing]) + " N", real, dict(case, listing=listing))
                 if res[0] != "ok":
                     ctx.fail("sequential", f"existing {subset} ({kindset}): {res}", case)
                     continue
@@ -381,6 +391,74 @@ def whole_runs(ctx):
         os.chdir(cwd)
 
 
+def neighbours_empty_directory(ctx):
+    """another run has just created its tmpN and stored nothing in it yet: whatever happens to THIS run (a fault in its own
+    mkdir on that very name, an interrupt, a normal end), that directory is not this run's and is still there afterwards
+    (whole `Lithium.main(argv)` runs)"""
+    import contextlib
+    import io
+
+    from lithium.reducer import Lithium
+
+    cwd = os.getcwd()
+    real_mkdir = os.mkdir
+    faults_ = [None, OSError(errno.EIO, os.strerror(errno.EIO)), OSError(errno.ESTALE, os.strerror(errno.ESTALE)), KeyboardInterrupt(), MemoryError()]
+    try:
+        for fault in faults_:
+            for nth in (1, 2):
+                d = fresh_dir("c20-neighbour")
+                (d / "tmp1").mkdir()                      # the other run's, still empty
+                (d / "tmp2").mkdir()
+                (d / "tc.txt").write_bytes(b"a\nb\nc\n")
+                (d / "c20n_test.py").write_text("def interesting(args, prefix):\n    return b'b' in open(args[-1], 'rb').read()\n")
+                os.chdir(d)
+                sys.modules.pop("c20n_test", None)
+                seen = []
+
+                def bad(p, mode=0o777, *a, fault=fault, nth=nth, seen=seen, **k):
+                    seen.append(str(p))
+                    if fault is not None and len(seen) == nth:
+                        raise fault
+                    return real_mkdir(p, mode, *a, **k)
+
+                os.mkdir = bad
+                old_handler = signal.signal(signal.SIGALRM, _alarm)
+                signal.setitimer(signal.ITIMER_REAL, 10.0)
+                try:
+                    try:
+                        with contextlib.redirect_stdout(io.StringIO()), contextlib.redirect_stderr(io.StringIO()):
+                            res = ("ok", Lithium().main(["c20n_test.py", "tc.txt"]))
+                    except Spin:
+                        res = ("spin",)
+                    except BaseException as exc:  # pylint: disable=broad-except
+                        res = ("raise", type(exc).__name__)
+                finally:
+                    signal.setitimer(signal.ITIMER_REAL, 0)
+                    signal.signal(signal.SIGALRM, old_handler)
+                    os.mkdir = real_mkdir
+                    os.chdir(cwd)
+                    sys.modules.pop("c20n_test", None)
+                ctx.evaluations += 1
+                ctx.bump("neighbours-empty-directory")
+                case = dict(fault=None if fault is None else type(fault).__name__ + (f":{fault.errno}" if isinstance(fault, OSError) else ""),
+                            at_mkdir_call=nth, via="Lithium.main", existing=["tmp1 (empty dir)", "tmp2 (empty dir)"])
+                gone = [n for n in ("tmp1", "tmp2") if not (d / n).is_dir()]
+                filled = [n for n in ("tmp1", "tmp2") if (d / n).is_dir() and os.listdir(d / n)]
+                if gone or filled:
+                    ctx.fail("existing-touched", f"main() with {case['fault']} at mkdir call {nth} ({res}): the other runs' directories: removed {gone}, "
+                             f"written into {filled}", case)
+                elif res[0] == "spin":
+                    ctx.fail("fault-retry", f"main() with {case['fault']} at mkdir call {nth} did not return within 10 s", case)
+                elif fault is None and (res != ("ok", 0) or not (d / "tmp3").is_dir()):
+                    ctx.fail("sequential", f"main() next to two empty directories tmp1, tmp2: {res}, directory holds {sorted(os.listdir(d))}", case)
+                elif fault is not None and (res[0] != "raise" or (d / "tmp3").exists()):
+                    ctx.fail("fault-retry", f"main() with {case['fault']} at mkdir call {nth}: {res}, directory holds {sorted(os.listdir(d))}", case)
+                ctx.nontriv("neighbour", case["fault"], nth)
+    finally:
+        os.mkdir = real_mkdir
+        os.chdir(cwd)
+
+
 def init_changes_directory(ctx):
     """a condition script whose init() hook changes the working directory (it builds its target in a work directory): the
     run's tmpN is ONE directory — the one that is created is the one the files go to — and an older tmpN of the work directory
@@ -522,6 +600,7 @@ def run(ctx) -> int:
     sequential(ctx)
     faults(ctx)
     whole_runs(ctx)
+    neighbours_empty_directory(ctx)
     init_changes_directory(ctx)
     constructed_elsewhere(ctx)
     done = True
